@@ -236,6 +236,10 @@ def _index_exprs(node):
         for v in node.values:
             if isinstance(v, ast.FormattedValue):
                 out.append(v.value)
+    # the same index in a table of per-iteration names: `io_map[k][itr - 1]`
+    while isinstance(node, ast.Subscript):
+        out.append(node.slice)
+        node = node.value
     return out
 
 
@@ -353,7 +357,8 @@ def miter_template_rule(chk, repo, rule, rel="tx.py", qual="miter"):
     chk.ob(rule + ".two-copies", f"{rel}::{qual}::copies", a0 != a1 and p0 != p1 and {a0, a1} <= set(params), file=rel, func=qual, line=n0.lineno,
            fact={"copies": [(a0, p0), (a1, p1)]}, expect="the two circuit parameters instantiated under two distinct prefixes")
     pm = parents_map(fn)
-    comparator = tie = collector = None
+    comparator = tie = collector = empty_arm = None
+    ambiguous = False
     for a in adds:
         loops = enclosing(a, pm, (ast.For,))
         tl = a.args[1]
@@ -364,10 +369,19 @@ def miter_template_rule(chk, repo, rule, rel="tx.py", qual="miter"):
         elif loops and fin is not None and isinstance(tl, ast.Constant):
             comparator = (a, tl.value, fin, fout, loops[0])
         elif not loops and kwarg(a, "output", 4) is not None:
-            collector = (a, tl)
-    if not (comparator and tie and collector):
+            guards = [g for g in enclosing(a, pm, (ast.If,)) if isinstance(g.test, ast.UnaryOp) and isinstance(g.test.op, ast.Not)]
+            if guards and isinstance(tl, ast.Constant):
+                empty_arm = (a, tl)  # `if not endpoints: m.add("sat", "0", output=True)`: nothing compared
+            elif collector is None:
+                collector = (a, tl)
+            else:
+                ambiguous = True
+    if not (comparator and tie and collector) or ambiguous:
         chk.note(f"{rule}: tie / comparator / collector adds not recognised in {qual}; structural template rule abstains")
         return False
+    if empty_arm is not None:
+        chk.ob(rule + ".gate-algebra", f"{rel}::{qual}::collector without endpoints", empty_arm[1].value == "0", file=rel, func=qual, line=empty_arm[0].lineno,
+               fact={"collector_type_when_nothing_is_compared": empty_arm[1].value}, expect="constant 0: with nothing compared nothing differs")
 
     def prefixes_in(listnode, loopvar):
         """(recognised, prefixes): recognised only for a literal list of f-strings '<prefix>_{loopvar}' over the two copy
@@ -458,6 +472,27 @@ def path_recursion_rule(chk, repo, rule, funcs):
         for d in defs:
             params = {a.arg for a in d.args.posonlyargs + d.args.args + d.args.kwonlyargs}
             pm = parents_map(d)
+
+            def looks_up(expr, keys):
+                """the expression reads a container by (something derived from) a parameter, or asks for the neighbours of a node"""
+                for x in ast.walk(expr):
+                    if isinstance(x, ast.Subscript) and any(isinstance(y, ast.Name) and y.id in keys for y in ast.walk(x.slice)):
+                        return True
+                    if isinstance(x, ast.Call) and isinstance(x.func, ast.Attribute) and x.func.attr == "get" and any(isinstance(y, ast.Name) and y.id in keys for a in x.args for y in ast.walk(a)):
+                        return True
+                    if isinstance(x, ast.Attribute) and x.attr in _NEIGHBOUR_WORDS:
+                        return True
+                return False
+
+            # locals that hold what such a look-up returned (`gate, operands = gates[net]`), to a fixpoint
+            derived = set()
+            for _ in range(4):
+                for st in ast.walk(d):
+                    if isinstance(st, (ast.Assign, ast.AnnAssign, ast.NamedExpr)) and getattr(st, "value", None) is not None:
+                        v = st.value
+                        if looks_up(v, params | derived) or any(isinstance(y, ast.Name) and y.id in derived for y in ast.walk(v)):
+                            tg = st.targets if isinstance(st, ast.Assign) else [st.target]
+                            derived |= {y.id for t in tg for y in ast.walk(t) if isinstance(y, ast.Name)}
             for c in ast.walk(d):
                 if not isinstance(c, ast.Call):
                     continue
@@ -479,7 +514,7 @@ def path_recursion_rule(chk, repo, rule, funcs):
                         words = {x.attr for x in ast.walk(it) if isinstance(x, ast.Attribute)} | {x.id for x in ast.walk(it) if isinstance(x, ast.Name)}
                         keyed = any(isinstance(x, ast.Subscript) and any(isinstance(y, ast.Name) and y.id in params for y in ast.walk(x.slice)) for x in ast.walk(it)) or \
                             any(isinstance(x, ast.Call) and isinstance(x.func, ast.Attribute) and x.func.attr == "get" and any(isinstance(y, ast.Name) and y.id in params for a in x.args for y in ast.walk(a)) for x in ast.walk(it))
-                        if words & _NEIGHBOUR_WORDS or keyed:
+                        if words & _NEIGHBOUR_WORDS or keyed or (words & derived):
                             along = True
                 (found if along else other).append((d.name, c.lineno, norm(c)[:80]))
         n += 1
